@@ -114,7 +114,9 @@ def jobs(tier):
         ('PN_PulseAux', 'struct PulseNode *t = mv_pick(); unsigned long now;', 't, now'),
     ]
     variants = [('', [])]
-    if tier != 'quick' or os.environ.get('MV_REENTER'):
+    # the re-entrant variant (Pulse callback invalidating another node) needs ~40 min per run and its postcondition
+    # is not yet right (it fails on the unchanged tree, see DESIGN change log): not registered in any tier
+    if os.environ.get('MV_REENTER'):
         variants.append(('_reenter', ['MV_REENTER']))
     from mv.runner import contract_clauses
     QUICK = ('PN_InvalidatePulseTime', 'PN_PutPulseChild', 'PN_RemovePulseChild')
